@@ -1,5 +1,6 @@
 import os
 import pathlib
+import shutil
 import signal
 import subprocess
 import sys
@@ -31,6 +32,18 @@ from conductor.task_identifier import TaskIdentifier
 from conductor.utils.output_handler import RecordType, OutputHandler
 from conductor.utils.run_arguments import RunArguments
 from conductor.utils.run_options import RunOptions
+
+
+def _remove_entry(path: pathlib.Path) -> None:
+    """
+    Removes whatever exists under this name: a file, a link (never what it
+    points to) or a directory.
+    """
+    if path.is_symlink() or not path.is_dir():
+        if path.is_symlink() or path.exists():
+            path.unlink()
+    else:
+        shutil.rmtree(path)
 
 
 class RunTaskExecutable(Operation):
@@ -161,12 +174,18 @@ class RunTaskExecutable(Operation):
             )
 
         if self._serialize_args_options:
-            if not self._args.empty():
-                self._args.serialize_json(self._output_path / EXP_ARGS_JSON_FILE_NAME)
-            if not self._options.empty():
-                self._options.serialize_json(
-                    self._output_path / EXP_OPTION_JSON_FILE_NAME
-                )
+            for file_name, values in (
+                (EXP_ARGS_JSON_FILE_NAME, self._args),
+                (EXP_OPTION_JSON_FILE_NAME, self._options),
+            ):
+                # The command may have left an entry of its own under a record's
+                # name (e.g., by copying an earlier version into its output
+                # directory). The records are Conductor's: they exist exactly when
+                # arguments (options) were declared.
+                record_path = self._output_path / file_name
+                _remove_entry(record_path)
+                if not values.empty():
+                    values.serialize_json(record_path)
 
         if self._version_to_record is not None:
             ctx.version_index.insert_output_version(
